@@ -357,8 +357,20 @@ static int c14_limit(toks_t *t)
     /* scan limit: progressive 3-component image has 10 scans with the default script */
     h0 = tj3Init(TJINIT_COMPRESS); tj3Set(h0, TJPARAM_SUBSAMP, TJSAMP_444); tj3Set(h0, TJPARAM_QUALITY, 80); tj3Set(h0, TJPARAM_PROGRESSIVE, 1); tj3Compress8(h0, img, 40, 1200 * 3, 30, TJPF_RGB, &jp, &jn); tj3Destroy(h0);
     hd = tj3Init(b ? TJINIT_TRANSFORM : TJINIT_DECOMPRESS); tj3Set(hd, TJPARAM_SCANLIMIT, a);
-    if (b) { tjtransform xf; unsigned char *d2 = NULL; size_t n2 = 0; memset(&xf, 0, sizeof(xf)); xf.op = TJXOP_HFLIP; xf.options = TJXOPT_TRIM; rc = tj3Transform(hd, jp, jn, 1, &d2, &n2, &xf); tj3Free(d2); }
-    else rc = tj3Decompress8(hd, jp, jn, out, 0, TJPF_RGB);
+    {
+      /* call history (t[4]): 0 none; 1 / 2 a TurboJPEG 2.x call without TJFLAG_LIMITSCANS on a small baseline image first (tjDecompress2 /
+         tjDecompressToYUV2); 3 the decompression itself through tjDecompress2 without the flag.  The limit set with tj3Set holds in all */
+      int hist = t->n > 4 ? (int)tl(t, 4) : 0; unsigned char *sj = NULL; size_t sn = 0;
+      if (hist == 1 || hist == 2) {
+        tjhandle hs = tj3Init(TJINIT_COMPRESS); tj3Set(hs, TJPARAM_SUBSAMP, TJSAMP_420); tj3Set(hs, TJPARAM_QUALITY, 80); tj3Compress8(hs, img, 16, 1200 * 3, 16, TJPF_RGB, &sj, &sn); tj3Destroy(hs);
+        if (hist == 1) (void)tjDecompress2(hd, sj, (unsigned long)sn, out, 16, 0, 16, TJPF_RGB, 0); else (void)tjDecompressToYUV2(hd, sj, (unsigned long)sn, out, 16, 4, 16, 0);
+        tj3Free(sj);
+      }
+      if (b) { tjtransform xf; unsigned char *d2 = NULL; size_t n2 = 0; memset(&xf, 0, sizeof(xf)); xf.op = TJXOP_HFLIP; xf.options = TJXOPT_TRIM; rc = tj3Transform(hd, jp, jn, 1, &d2, &n2, &xf); tj3Free(d2); }
+      else if (hist == 3) rc = tjDecompress2(hd, jp, (unsigned long)jn, out, 40, 0, 30, TJPF_RGB, 0);
+      else rc = tj3Decompress8(hd, jp, jn, out, 0, TJPF_RGB);
+      if (tj3Get(hd, TJPARAM_SCANLIMIT) != a) { printf("R skip rc%d\n", rc); printf("O fail limit: TJPARAM_SCANLIMIT was set to %d and reads %d after call history %d\n", a, tj3Get(hd, TJPARAM_SCANLIMIT), hist); tj3Destroy(hd); tj3Free(jp); return 1; }
+    }
     printf("R skip rc%d\n", rc);
     if (a > 0 && a < 10 && rc == 0) printf("O fail limit: 10-scan image accepted with TJPARAM_SCANLIMIT=%d\n", a);
     else if ((a == 0 || a >= 10) && rc < 0) printf("O fail limit: 10-scan image refused with TJPARAM_SCANLIMIT=%d: %s\n", a, tj3GetErrorStr(hd));
@@ -398,7 +410,11 @@ static int c14_limit(toks_t *t)
 static int dispatch_c14(toks_t *t)
 {
   if (!strcmp(t->tok[0], "afail") && t->n >= 5) return c14_afail(t);
-  if (!strcmp(t->tok[0], "memtrace") && t->n >= 5) return c14_memtrace(t);
+  if (!strcmp(t->tok[0], "memtrace") && t->n >= 5) {
+    /* the allocation trace is compared with the memory-manager model, whose pool sizes are those of the unmodified allocator */
+    if (getenv("LJT_NOPOOL")) { printf("R skip\n"); return 1; }
+    return c14_memtrace(t);
+  }
   if (!strcmp(t->tok[0], "limit") && t->n >= 5) return c14_limit(t);
   if (!strcmp(t->tok[0], "memreplay")) { printf("R ok\n"); return 1; }
   return 0;
